@@ -361,7 +361,21 @@ func (vc *VC) evalBuiltin(st *State, name string, call *ast.CallExpr, preArgs []
 		st0 := vc.typeOf(call)
 		et := vc.ts.apply(under(st0).(*types.Slice).Elem())
 		if call.Ellipsis.IsValid() {
-			vc.fail(call, "append with ... ")
+			// append(s, t...): fresh array agreeing with s then t
+			tt := arg(1)
+			var tlen, tat string
+			if isString(tt.T) {
+				tlen = "(s.len " + tt.S + ")"
+				tat = "(s.at " + tt.S + " (- i!a " + vc.sliceLen(s) + "))"
+			} else {
+				tlen = vc.sliceLen(tt)
+				tat = "(select " + vc.sliceArr(tt) + " (- i!a " + vc.sliceLen(s) + "))"
+			}
+			es := vc.u.SortOf(et)
+			a := vc.freshSort("app", "(Array Int "+es+")")
+			st.assume(fmt.Sprintf("(forall ((i!a Int)) (! (=> (and (<= 0 i!a) (< i!a %s)) (= (select %s i!a) (select %s i!a))) :pattern ((select %s i!a))))", vc.sliceLen(s), a.S, vc.sliceArr(s), a.S))
+			st.assume(fmt.Sprintf("(forall ((i!a Int)) (! (=> (and (<= %s i!a) (< i!a (+ %s %s))) (= (select %s i!a) %s)) :pattern ((select %s i!a))))", vc.sliceLen(s), vc.sliceLen(s), tlen, a.S, tat, a.S))
+			return []Term{vc.mkSlice(st0, a.S, "(+ "+vc.sliceLen(s)+" "+tlen+")", or(vc.sliceNN(s), "(> "+tlen+" 0)"))}
 		}
 		arr := vc.sliceArr(s)
 		ln := vc.sliceLen(s)
@@ -556,6 +570,10 @@ func (vc *VC) callByContract(st *State, spec *FuncSpec, callee *types.Func, sig 
 	post = post.with(rv)
 	for _, e := range spec.Ensures {
 		st.assume(post.evalBool(e.Expr))
+	}
+	for _, e := range spec.Promises {
+		st.assume(post.evalBool(e.Expr))
+		vc.note("trusted (not proved) clause of " + spec.Key + ": " + e.Text)
 	}
 	if spec.Panics != nil {
 		// the callee documents when it panics; execution continues only if it did not
